@@ -636,7 +636,8 @@ def gen_cc(rng, tier):
             sh = [rng.uniform(-8, 8) for _ in range(3)]
         parts.append([f2b(v) for v in pos + sh + a])
         ids.append([rng.choice(tomos), subs[i], rng.randint(0, 9)])
-    ids.sort(key=lambda t: t[0])
+    if rng.random() < 0.5:   # half of the lists keep their tomograms interleaved / unsorted
+        ids.sort(key=lambda t: t[0])
     for i in range(n):
         ids[i][1] = subs[i]
     return dict(kind="cc", ver=ver, px=f2b(px), tomo_fmt=tf, sub_fmt=sf, optics=(ver >= 31 and rng.random() < 0.5), parts=parts, ids=ids,
